@@ -62,6 +62,10 @@ MCNewReader(r, s, c) ==
   /\ c => s >= 0        \* a committed reader is only ever started at a real offset
   /\ DoNewReader(r, s, c) /\ Step([a |-> "NewReader", r |-> r, s |-> s, c |-> c]) /\ UNCHANGED nRecs
 MCDrain(r) == UseReaders /\ DoDrain(r) /\ Step([a |-> "Drain", r |-> r]) /\ UNCHANGED nRecs
+\* Tail: from now on the driver reads r from its own goroutine with a live context, so the
+\* reader really blocks at the end of the log / at the HW and is woken by later steps; what it
+\* delivers after each later step is recorded as a Drain.  For the model a Tail is a Drain.
+MCTail(r) == UseReaders /\ DoDrain(r) /\ Step([a |-> "Tail", r |-> r]) /\ UNCHANGED nRecs
 
 MCNext ==
   \/ \E n \in 1..MaxBatch, big \in BOOLEAN, de \in 0..1, dx \in {-1, 0, 1, 9} : MCAppend(n, big, de, dx)
@@ -72,7 +76,7 @@ MCNext ==
   \/ \E b \in BOOLEAN : MCSetReadonly(b)
   \/ MCReopen
   \/ \E r \in Readers, s \in -1..(Newest + 2), c \in BOOLEAN : MCNewReader(r, s, c)
-  \/ \E r \in Readers : MCDrain(r)
+  \/ \E r \in Readers : MCDrain(r) \/ MCTail(r)
 
 MCSpec == MCInit /\ [][MCNext]_mcvars
 
